@@ -761,3 +761,23 @@ func ReplayFile(path string) int {
 
 	return 1
 }
+
+// mustReproduce replays the schedule of a violation twice and aborts with a NONDETERMINISM harness error
+// (exit 2, never a VIOLATION) unless the same signature is reported both times: the same schedule must
+// fail every time before a failure is believed.
+func mustReproduce(sig string, choices []int8, body func(), check func(r *vsched.Result) []Violation) {
+	for i := 0; i < 2; i++ {
+		rr := vsched.Replay(choices, body)
+		same := false
+
+		for _, v := range check(rr) {
+			if v.Signature == sig {
+				same = true
+			}
+		}
+
+		if !same {
+			vsched.Fatalf("NONDETERMINISM: violation %q did not reproduce when its schedule was replayed", sig)
+		}
+	}
+}
